@@ -6,6 +6,8 @@ import (
 	"fmt"
 	"os"
 
+	"verifharness/internal/c03"
+	"verifharness/internal/c05"
 	"verifharness/internal/c06"
 	"verifharness/internal/common"
 )
@@ -13,6 +15,8 @@ import (
 type sub func(tier string, seed int64, outDir string) *common.Meta
 
 var subs = map[string]sub{
+	"c03": c03.Run,
+	"c05": c05.Run,
 	"c06": c06.Run,
 }
 
